@@ -13,7 +13,7 @@ TextSet == { NUL \o A \o B, A \o NUL \o B \o C, HA \o NUL \o A, A \o B \o C, A \
 
 NRows == LET RECURSIVE S(_) S(d) == IF d = 0 THEN 0 ELSE Len(layers[d]) + S(d - 1) IN S(Len(layers))
 
-MAdd == /\ NRows < MaxRows /\ \E k \in KeySet, lid \in {0, -1} : AddRow(k, lid)
+MAdd == /\ NRows < MaxRows /\ \E k \in KeySet, lid \in {0, -1, -2} : AddRow(k, lid)
 MLayer == Len(layers) < MaxLayers /\ NewLayer
 MBuild == Len(layers[Len(layers)]) > 0 /\ Build
 MNext == MAdd \/ MLayer \/ MBuild
